@@ -214,6 +214,8 @@ func c05xRun(line string, f map[string]string, out *hx.Out) (string, bool) {
 	rd := newChunkReader(stream, chunk, int64(cseed))
 	p := pf(rd)
 	reused := socket.NewMessage()
+	c05RetainStart()
+	defer c05RetainCheck(line, out, "c05:"+proto+":decoded-message-aliases-read-buffer")
 	for i, w := range want {
 		var got *M
 		var class string
